@@ -31,7 +31,8 @@ ModelLeaves(kind) ==
 
 JudgeBase(e) ==
   [ M_fault_free_run_succeeds |-> Must(e.ok),
-    M_dispatches_match_exec_model |-> G(e.ok /\ ModelLeaves(e.kind) # -1, e.ncalls = ModelLeaves(e.kind)) ]
+    \* even world variants have the farm owners MC_Exec's shapes assume (two distinct owners)
+    M_dispatches_match_exec_model |-> G(e.ok /\ ModelLeaves(e.kind) # -1 /\ e.variant % 2 = 0, e.ncalls = ModelLeaves(e.kind)) ]
 JudgeFault(b, e) ==
   LET inside == e.k <= b.ncalls
       refund == inside /\ IsRefund(b, e.k)
